@@ -141,6 +141,30 @@ DESC = {
                 "a serializer that formats the value more than once (measure-then-write, overflow-and-retry): the second pass yields an empty string or only the tail"),
     "r5c16-4": ("C16", "A one-piece fast path for PURLs of at most 128 bytes conflates 'did not fit' with 'the sink refused the write' and streams the whole PURL again after a failed write.",
                 "a transient sink error after partial acceptance: success is reported with the accepted prefix followed by the whole PURL"),
+    "r6c12-1": ("C12", "Qualifiers::search compares keys that are not all-lower-case through an upper-folding comparison although the list is ordered by lower case ('_' sits between the two cases).",
+                "a sibling key with '_' at the first position where it differs from 'checksum', combined with a particular order or a capitalised CHECKSUM: build() leaves the raw text and get(\"checksum\") returns None"),
+    "r6c12-2": ("C12", "decode_qualifiers percent-decodes the whole query once, before splitting at '&'.",
+                "a %26 inside the checksum value, i.e. an algorithm name containing '&': the library's own output no longer parses back"),
+    "r6c12-3": ("C12", "copy_as_lowercase keeps only the first character of a multi-character lower-case mapping.",
+                "U+0130 (capital I with dot), the only character whose lower-case mapping has two characters: it is stored as 'i' and collides with a genuine i / I entry"),
+    "r6c12-4": ("C12", "Qualifiers::try_insert_typed returns early when the text form is empty ('empty means unset, nothing to store').",
+                "a history: the target already holds a checksum and the Checksum being set has no entries (parse, get typed, remove the only algorithm, set it back): the old checksum silently stays"),
+    "r6c14-1": ("C14", "build() merges empty-qualifier removal and an 'is there a checksum?' test into one retain pass; the flag is assigned with = instead of |=.",
+                "a non-empty qualifier whose key sorts after 'checksum' (vcs_url, repository_url): a hook-written checksum is then neither canonicalised nor refused"),
+    "r6c14-2": ("C14", "Qualifiers::search scans linearly up to 8 entries (correct) and binary-searches raw bytes above that, forgetting that the searched key may contain capitals.",
+                "more than 8 qualifiers AND a key spelled with a capital letter: a hook's insert(\"Arch\", ..) creates a duplicate, mis-sorted entry"),
+    "r6c14-3": ("C14", "Empty removal and checksum canonicalisation fused into one retain_mut pass that canonicalises before the emptiness test.",
+                "a hook (or with_qualifier(\"checksum\", \"\")) that blanks the checksum: InvalidQualifier instead of the qualifier being unset"),
+    "r6c14-4": ("C14", "Checksum::try_from(&str) uses split_terminator(',') instead of split(',').",
+                "a checksum ending in exactly one stray ',': it is accepted and reported without the comma - a value the hook never wrote"),
+    "r6c16-1": ("C16", "For formats that are not human readable, Serialize emits the string without the constant 'pkg:' prefix and Deserialize puts it back (two cooperating sites).",
+                "a bincode-like format (is_human_readable() == false); serde_json and serde's value deserializers are unaffected"),
+    "r6c16-2": ("C16", "Same idea as r3c12-1, written independently: build() records the checksum position while dropping empty qualifiers.",
+                "a builder-made value with an empty-valued qualifier sorting before 'checksum': it serialises with a non-canonical or invalid checksum and does not come back equal"),
+    "r6c16-3": ("C16", "The spec rule 'the type cannot start with a number' is enforced only in from_str; build()/finish and Display still accept such types.",
+                "a builder-made GenericPurl<String> whose type starts with a digit (7zip): its canonical string is refused on deserialisation"),
+    "r6c16-4": ("C16", "visit_str refuses strings longer than 65535 bytes with invalid_length; FromStr and Serialize have no such limit.",
+                "a PURL string of more than 64 KiB"),
 }
 
 
@@ -161,6 +185,7 @@ def main():
     before3 = table(os.path.join(ROOT, "RESULTS-round3-before-strengthening.tsv"))
     before4 = table(os.path.join(ROOT, "RESULTS-round4-before-strengthening.tsv"))
     before5 = table(os.path.join(ROOT, "RESULTS-round5-before-strengthening.tsv"))
+    before6 = table(os.path.join(ROOT, "RESULTS-round6-before-strengthening.tsv"))
     for name, (prop, what, needs) in sorted(DESC.items()):
         d = os.path.join(ROOT, name)
         if not os.path.isdir(d):
@@ -172,10 +197,11 @@ def main():
         b3 = before3.get(name, {})
         b4 = before4.get(name, {})
         b5 = before5.get(name, {})
+        b6 = before6.get(name, {})
         meta = {
             "id": name,
             "property_broken": prop,
-            "origin": f"fresh sub-agent '{name.split('-')[0]}', change #{name.split('-')[1]}; it was given only the text of {prop} and a scratch worktree of /repo, nothing from /verif" + ("; round 2: it was also told which ideas round 1 had produced and asked for different ones" if name.startswith("r2") else "") + ("; round 3: it was also told which ideas rounds 1 and 2 had produced, and pointed at rarely exercised public API paths, call order, thresholds and continued use after a failure" if name.startswith("r3") else "") + ("; round 4: told the ideas of rounds 1-3 and asked to read the code paths end to end for small-effect defects" if name.startswith("r4") else "") + ("; round 5: told the ideas of rounds 1-4, with a focus per property: hash order / entry count / call sequences (C12), combinations of conversion, hook and input shape (C14), misbehaving sinks and sources only (C16)" if name.startswith("r5") else ""),
+            "origin": f"fresh sub-agent '{name.split('-')[0]}', change #{name.split('-')[1]}; it was given only the text of {prop} and a scratch worktree of /repo, nothing from /verif" + ("; round 2: it was also told which ideas round 1 had produced and asked for different ones" if name.startswith("r2") else "") + ("; round 3: it was also told which ideas rounds 1 and 2 had produced, and pointed at rarely exercised public API paths, call order, thresholds and continued use after a failure" if name.startswith("r3") else "") + ("; round 4: told the ideas of rounds 1-3 and asked to read the code paths end to end for small-effect defects" if name.startswith("r4") else "") + ("; round 5: told the ideas of rounds 1-4, with a focus per property: hash order / entry count / call sequences (C12), combinations of conversion, hook and input shape (C14), misbehaving sinks and sources only (C16)" if name.startswith("r5") else "") + ("; round 6: told the ideas of rounds 1-5 and asked to widen the search to the whole crate and to single build configurations" if name.startswith("r6") else ""),
             "change": what,
             "needs_in_order_to_manifest": needs,
             "files": {"patch": "patch.diff", "demonstration": "demo.rs (drop into purl/tests/)", "author_notes": "notes.md"},
@@ -203,6 +229,11 @@ def main():
                 "verdict": r.get("verdict"),
             },
         }
+        if b6:
+            meta["checks_before_they_were_strengthened_for_round_6"] = {
+                "note": "result with the checks at commit 4a03e96 (the version that met round 6)",
+                "C12": b6.get("C12"), "C14": b6.get("C14"), "C16": b6.get("C16"), "verdict": b6.get("verdict"),
+            }
         if b5:
             meta["checks_before_they_were_strengthened_for_round_5"] = {
                 "note": "result with the checks at commit acf2988 (the version that met round 5); exit2 = the change did not build under the hook wrapper of that time",
